@@ -122,7 +122,7 @@ class SrcInfo:
         'Option': ['None', 'Some'], 'Result': ['Ok', 'Err'], 'ControlFlow': ['Continue', 'Break'],
         'Poll': ['Ready', 'Pending'], 'Cow': ['Borrowed', 'Owned'], 'Err': ['Incomplete', 'Error', 'Failure'],
         'Needed': ['Unknown', 'Size'], 'Ordering': ['Less', 'Equal', 'Greater'],
-        'Entry': ['Occupied', 'Vacant'], 'Either': ['Left', 'Right'],
+        'Entry': ['Occupied', 'Vacant'], 'Either': ['Left', 'Right'], 'TryRecvError': ['Empty', 'Disconnected'],
         # tokio::select! with four branches (the only one in the crate): enum Out { _0, _1, _2, _3, Disabled }
         'Out': ['_0', '_1', '_2', '_3', 'Disabled'],
     }
